@@ -13,7 +13,8 @@ Segs == [a \in 1..Len(tr.segs) |-> [peak |-> tr.segs[a].peak, pos |-> tr.segs[a]
 Verdict ==
     LET unit == 10 * ain.par.dpden
         failed == C04_Failed(ain, Segs, tr.conf)
-                  \cup (IF AbsV(tr.written * unit - tr.conf * 100) * 2 <= unit * 101 THEN {} ELSE {"written_confidence_is_the_sum_to_2_decimals"})
+                  \cup (IF AbsV(tr.written * unit - tr.conf * 100) * 2 <= unit   \* within half a hundredth, rounding ties included
+                        THEN {} ELSE {"written_confidence_is_the_sum_to_2_decimals"})
     IN IF failed = {} THEN TRUE ELSE PrintT(ToString(<<"V", t, failed, {}>>))
 Report == phase # "reported" /\ Verdict /\ phase' = "reported"
           /\ UNCHANGED <<ain, k, scored, segsAll, final, row, pvars, svars, chvars, rvars, t>>
